@@ -536,8 +536,7 @@ def run_cases(report, g, model):
     bins, log, wall = tieb.build(g.name, g.mods, nbins=8)
     report.cov["engine_build_s"] = round(report.cov.get("engine_build_s", 0) + wall, 1)
     if bins is None:
-        report.violation({"kind": "obligation-broken", "no_longer_checks": [f"generated programs of group {g.name} do not compile against the repository"],
-                          "log": log[-3000:]}, no_input=True)
+        tieb.report_build_failure(report, g.name, g.mods, log)
         return None
     lines, pids = [], []
     for pid, p in g.twins.items():
